@@ -58,7 +58,7 @@ def run(ctx):
                     f'lock: a writer that waited for the lock works on a stale snapshot (deletes lost / undone)')
     ctx.floor(R1, n, 2, 'functions that both pin a version and take a table lock')
     # who acquires the deletion lock
-    callers = [c for c in prog.calls_matching(suffix('SecondaryTable::lock_for_deletion', 'TransactionManager::lock_for_deletion'))]
+    callers = [c for c in prog.calls_matching_all(suffix('SecondaryTable::lock_for_deletion', 'TransactionManager::lock_for_deletion'))]
     allowed = {SEC + 'transaction::SecondaryTransaction::start', SEC + 'table::SecondaryTable::lock_for_deletion'}
     for c in callers:
         ok = c.body.root in allowed
@@ -77,7 +77,7 @@ def run(ctx):
     R2 = 'C09-R2'
     ctx.rule(R2, 'compact_table is called only from a block dominated by the Some arm of try_lock_for_compaction, and the '
                  'guard is not dropped before compact_table completes')
-    calls = [c for c in prog.calls_matching(suffix('Compactor::compact_table')) if (c.fn or '').endswith('compact_table')]
+    calls = [c for c in prog.calls_matching_all(suffix('Compactor::compact_table')) if (c.fn or '').endswith('compact_table')]
     ctx.floor(R2, len(calls), 1, 'compact_table call sites')
     for c in calls:
         b = c.body
@@ -132,12 +132,12 @@ def run(ctx):
     ctx.rule(R3, 'single committer: Manifest::append is called only by commit_changes_with_custom_manifest, which is reached '
                  'only from commit_changes / rewrite_changes after they took the manifest lock')
     CC = SEC + 'version_manager::VersionManager::commit_changes_with_custom_manifest'
-    app = [c for c in prog.calls_matching(suffix('Manifest::append')) if (c.fn or '').endswith('Manifest::append')]
+    app = [c for c in prog.calls_matching_all(suffix('Manifest::append')) if (c.fn or '').endswith('Manifest::append')]
     ctx.floor(R3, len(app), 1, 'Manifest::append call sites')
     for c in app:
         ctx.ob(R3, f'who:{c.body.root}→Manifest::append', c.body.root == CC,
                f'Manifest::append called from {c.body.name}', [site(c.body, c.bb)])
-    cc = [c for c in prog.calls_matching(suffix('VersionManager::commit_changes_with_custom_manifest'))
+    cc = [c for c in prog.calls_matching_all(suffix('VersionManager::commit_changes_with_custom_manifest'))
           if (c.fn or '').endswith('commit_changes_with_custom_manifest')]
     ctx.floor(R3 + '-callers', len(cc), 2, 'callers of commit_changes_with_custom_manifest')
     for c in cc:
